@@ -30,6 +30,11 @@ class Analysis:
         from .callgraph import CallGraph
         return CallGraph(self)
 
+    @cached_property
+    def extents(self):
+        from .paths import _shared_extents
+        return _shared_extents(self.p)
+
     def stats(self) -> dict:
         return {
             'modules': len(self.p.modules),
